@@ -107,6 +107,24 @@ def replaced_binding_desc(rng, k=3):
     return d
 
 
+def user_binding_desc(rng, k=4):
+    """ice species with the user's own binding energies and photodesorption yields (values that differ from the RATE12 table),
+    default element lists, no replacement table: the exported project has to carry them to the re-rendering"""
+    d = gen_desc(rng, k)
+    while d["replacement"]:
+        d = gen_desc(rng, k)
+    lines = [native(1, ["H", "H"], ["H2"]), native(2, ["C", "O"], ["CO"]), native(3, ["O", "H2"], ["H2O"]),
+             native(4, ["CO"], ["#CO"], a=1.0, ty=200), native(5, ["#CO"], ["CO"], a=1.0, ty=201),
+             native(6, ["H2O"], ["#H2O"], a=1.0, ty=200), native(7, ["#H2O"], ["H2O"], a=1.0, ty=201)]
+    d["kwargs"] = {"grain_symbol": "GRAIN", "surface_prefix": "#", "bulk_prefix": "@"}
+    d["files"] = [["\n".join(lines) + "\n", "naunet"]]
+    d["grain_model"], d["allowed"], d["required"], d["cooling"], d["shielding"] = "hh93", [], [], [], {}
+    d["rate_modifier"], d["ode_modifier"] = {}, {}
+    d.pop("ode_modifier_terms", None)
+    d["binding"], d["yield"] = {"#CO": 1300.0, "#H2O": 5555.5}, {}
+    return d
+
+
 def elements_only_desc(rng, k=4):
     """a project that declares its elements and *no* pseudo-elements (`--pseudo-elements=''`, as `naunet example` passes it for the
     minimal example): the generic third body `M` is an element here, although it is a pseudo-element of the default list"""
@@ -235,6 +253,12 @@ def run(argv):
             d = replaced_binding_desc(rng, k)
         if k == 4:
             d = elements_only_desc(rng, k)
+        if k == 5:
+            d = user_binding_desc(rng, k)
+        while k == 6 and d["replacement"]:
+            d = gen_desc(rng, k)
+        if k == 6:
+            d["allowed"], d["required"] = [], ["D", "Si"]        # extra species that take part in no reaction, always
         descs.append(d)
     ex_cases = [4, 5, 7, 8, 11] if tier == "quick" else [0, 1, 3, 4, 5, 6, 7, 8, 9, 10, 11, 16, 17, 18]
     process(chk, descs, ex_cases)
